@@ -383,9 +383,19 @@ def r13_4(prog, rep):
     n = 0
     for q, f in sorted(m.funcs.items()):
         for iff in [x for x in walk_no_nested(f.node) if isinstance(x, ast.If)]:
-            cands = [iff.test] if isinstance(iff.test, ast.Compare) else \
-                [v for v in iff.test.values if isinstance(v, ast.Compare)] if isinstance(iff.test, ast.BoolOp) and isinstance(iff.test.op, ast.And) else []
-            for c in cands:
+            # comparison atoms of the condition with their polarity (negated an odd number of times = negative)
+            atoms = []
+
+            def collect(e, sign):
+                if isinstance(e, ast.BoolOp):
+                    for v_ in e.values:
+                        collect(v_, sign)
+                elif isinstance(e, ast.UnaryOp) and isinstance(e.op, ast.Not):
+                    collect(e.operand, not sign)
+                elif isinstance(e, ast.Compare):
+                    atoms.append((e, sign))
+            collect(iff.test, True)
+            for c, positive in atoms:
                 if len(c.ops) != 1 or not isinstance(c.ops[0], (ast.Lt, ast.LtE, ast.Gt, ast.GtE)):
                     continue
                 l, r = norm(c.left), norm(c.comparators[0])
@@ -409,7 +419,11 @@ def r13_4(prog, rep):
                     continue
                 n += 1
                 strict = isinstance(c.ops[0], (ast.Lt, ast.Gt))
-                ok = strict if pb else not strict
+                # the pruning arm is taken when the whole condition is true (body) / false (else); a positive atom pushes the
+                # condition towards true when it holds, a negated one when it does not
+                prune_when_atom_true = (pb and positive) or (pe and not positive)
+                ok = strict if prune_when_atom_true else not strict
+                pb = prune_when_atom_true
                 rep.ob("R13.4", rel, q, f"`{norm(c, 70)}`: the pruning side ({'true' if pb else 'false'} branch) excludes equal timestamps", ok,
                        "with equal commit times the queue order between a commit and the ancestors of an excluded commit is arbitrary; "
                        "pruning on a tie drops or keeps commits depending on that order", c.lineno)
